@@ -552,6 +552,210 @@ Definition solve_hk_cy_objective (hk_fun : R -> R) (sf_corr p_point l_pore : R) 
 """
 
 
+# ---------------------------------------------------------------- psd_microporous: model-name dispatch
+class Unknown(Exception):
+    pass
+
+
+_STR_METHODS = ('rstrip', 'lstrip', 'strip', 'endswith', 'startswith', 'removesuffix', 'removeprefix', 'replace', 'lower', 'upper',
+                'split', 'rsplit', 'partition', 'rpartition', 'find', 'rfind', 'count', 'index', 'title', 'casefold')
+SOLVER_FAMILY = {'psd_horvath_kawazoe': 'FamHK', 'psd_horvath_kawazoe_ry': 'FamRY'}
+SOLVER_ARGS = ['pressure', 'loading', 'isotherm.temperature', 'pore_geometry', 'adsorbate_model', 'material_properties']
+
+
+def cev(e, env):
+    """CONCRETE evaluation of a pure expression over strings / booleans / lists (the model name is enumerated, so the dispatch is
+    evaluated, not translated). Raises Unknown when the expression mentions anything that is not a function of the model name."""
+    if isinstance(e, ast.Constant) and (e.value is None or isinstance(e.value, (str, bool, int))):
+        return e.value
+    if isinstance(e, ast.Name):
+        if e.id in env:
+            return env[e.id]
+        raise Unknown(e.id)
+    if isinstance(e, (ast.List, ast.Tuple)):
+        v = [cev(x, env) for x in e.elts]
+        return v if isinstance(e, ast.List) else tuple(v)
+    if isinstance(e, ast.UnaryOp) and isinstance(e.op, ast.Not):
+        return not cev(e.operand, env)
+    if isinstance(e, ast.BoolOp):
+        vals = None
+        for x in e.values:
+            vals = cev(x, env)
+            if isinstance(e.op, ast.And) and not vals:
+                return vals
+            if isinstance(e.op, ast.Or) and vals:
+                return vals
+        return vals
+    if isinstance(e, ast.IfExp):
+        return cev(e.body, env) if cev(e.test, env) else cev(e.orelse, env)
+    if isinstance(e, ast.Compare):
+        left = cev(e.left, env)
+        for op, r in zip(e.ops, e.comparators):
+            right = cev(r, env)
+            if isinstance(op, ast.Eq):
+                ok = left == right
+            elif isinstance(op, ast.NotEq):
+                ok = left != right
+            elif isinstance(op, ast.In):
+                ok = left in right
+            elif isinstance(op, ast.NotIn):
+                ok = left not in right
+            elif isinstance(op, ast.Is):
+                ok = left is right
+            elif isinstance(op, ast.IsNot):
+                ok = left is not right
+            else:
+                raise Unknown('comparison')
+            if not ok:
+                return False
+            left = right
+        return True
+    if isinstance(e, ast.Subscript):
+        v = cev(e.value, env)
+        if isinstance(e.slice, ast.Slice):
+            lo = None if e.slice.lower is None else cev(e.slice.lower, env)
+            hi = None if e.slice.upper is None else cev(e.slice.upper, env)
+            st = None if e.slice.step is None else cev(e.slice.step, env)
+            return v[lo:hi:st]
+        return v[cev(e.slice, env)]
+    if isinstance(e, ast.UnaryOp) and isinstance(e.op, ast.USub):
+        return -cev(e.operand, env)
+    if isinstance(e, ast.BinOp) and isinstance(e.op, ast.Add):
+        return cev(e.left, env) + cev(e.right, env)
+    if isinstance(e, ast.Call) and not e.keywords:
+        if isinstance(e.func, ast.Attribute) and e.func.attr in _STR_METHODS:
+            v = cev(e.func.value, env)
+            if isinstance(v, str):
+                return getattr(v, e.func.attr)(*[cev(a, env) for a in e.args])
+        if isinstance(e.func, ast.Name) and e.func.id in ('len', 'bool', 'str') and e.func.id not in env and len(e.args) == 1:
+            return {'len': len, 'bool': bool, 'str': str}[e.func.id](cev(e.args[0], env))
+    raise Unknown(type(e).__name__)
+
+
+def _assigned_names(stmts):
+    out = set()
+    for s in stmts:
+        for n in ast.walk(s):
+            if isinstance(n, ast.Name) and isinstance(n.ctx, (ast.Store, ast.Del)):
+                out.add(n.id)
+    return out
+
+
+def _solver_calls(stmts):
+    return [n for s in stmts for n in ast.walk(s) if isinstance(n, ast.Call) and isinstance(n.func, ast.Name) and n.func.id in SOLVER_FAMILY]
+
+
+def dispatch_table(tree, fn):
+    """psd_microporous, evaluated for every accepted model name: which low-level function is called and with which use_cy.
+    Fail closed: the solver call must be reached through tests that depend on the model name only, with the recognised
+    positional arguments, and its three results must be what the returned dictionary reports."""
+    lists = {}
+    for n in tree.body:
+        if isinstance(n, ast.Assign) and len(n.targets) == 1 and isinstance(n.targets[0], ast.Name) and isinstance(n.value, ast.List) \
+                and all(isinstance(x, ast.Constant) and isinstance(x.value, str) for x in n.value.elts):
+            lists[n.targets[0].id] = [x.value for x in n.value.elts]
+    for need in ('_MICRO_PSD_MODELS', '_PORE_GEOMETRIES'):
+        if need not in lists:
+            raise Unsupported('%s: %s (list of strings) not found' % (fn, need))
+    fd = find_fun(tree, 'psd_microporous', fn)
+    params = [a.arg for a in fd.args.args]
+    if params[:3] != ['isotherm', 'psd_model', 'pore_geometry']:
+        bail(fn, fd, 'signature of psd_microporous')
+    defaults = {}
+    for name in SOLVER_FAMILY:
+        g = find_fun(tree, name, fn)
+        ga = [a.arg for a in g.args.args]
+        d = dict(zip(ga[len(ga) - len(g.args.defaults):], g.args.defaults))
+        if 'use_cy' not in d or not (isinstance(d['use_cy'], ast.Constant) and isinstance(d['use_cy'].value, bool)):
+            bail(fn, g, 'default of use_cy')
+        defaults[name] = d['use_cy'].value
+    body = strip_doc(fd.body)
+    table = []
+    for m in lists['_MICRO_PSD_MODELS']:
+        env = dict(lists)
+        env['psd_model'] = m
+        found = []
+        state = {'done': None}
+
+        def walk(stmts):
+            for s in stmts:
+                if state['done']:
+                    return
+                if isinstance(s, ast.If):
+                    try:
+                        t = cev(s.test, env)
+                    except (Unknown, TypeError, ValueError, IndexError, AttributeError):
+                        if _solver_calls([s]):
+                            bail(fn, s, 'the low-level PSD function is called under a test that is not a function of psd_model: ' + ast.unparse(s.test))
+                        for nm in _assigned_names([s]):
+                            env.pop(nm, None)
+                        continue
+                    walk(s.body if t else s.orelse)
+                    continue
+                if isinstance(s, ast.Raise):
+                    state['done'] = 'raise'
+                    return
+                if isinstance(s, ast.Return):
+                    state['done'] = ('return', s)
+                    return
+                if isinstance(s, ast.Assign) and isinstance(s.value, ast.Call) and isinstance(s.value.func, ast.Name) and s.value.func.id in SOLVER_FAMILY:
+                    c = s.value
+                    if [ast.unparse(a) for a in c.args] != SOLVER_ARGS:
+                        bail(fn, s, 'positional arguments of %s are not %s' % (c.func.id, SOLVER_ARGS))
+                    cy = defaults[c.func.id]
+                    for kw in c.keywords:
+                        if kw.arg != 'use_cy':
+                            bail(fn, s, 'keyword %s of %s' % (kw.arg, c.func.id))
+                        try:
+                            cy = cev(kw.value, env)
+                        except (Unknown, TypeError, ValueError, IndexError, AttributeError):
+                            bail(fn, s, 'use_cy=%s is not a function of psd_model' % ast.unparse(kw.value))
+                    if not isinstance(cy, bool):
+                        bail(fn, s, 'use_cy=%r is not a boolean for psd_model=%r' % (cy, m))
+                    if not (len(s.targets) == 1 and isinstance(s.targets[0], ast.Tuple) and all(isinstance(x, ast.Name) for x in s.targets[0].elts)
+                            and len(s.targets[0].elts) == 3):
+                        bail(fn, s, 'results of %s are not unpacked into three names' % c.func.id)
+                    found.append((c.func.id, cy, [x.id for x in s.targets[0].elts]))
+                    for nm in _assigned_names([s]):
+                        env.pop(nm, None)
+                    continue
+                if _solver_calls([s]):
+                    bail(fn, s, 'unrecognised use of the low-level PSD function')
+                if isinstance(s, (ast.Assign, ast.AnnAssign)) and s.value is not None:
+                    tg = s.targets if isinstance(s, ast.Assign) else [s.target]
+                    if len(tg) == 1 and isinstance(tg[0], ast.Name):
+                        try:
+                            env[tg[0].id] = cev(s.value, env)
+                            continue
+                        except (Unknown, TypeError, ValueError, IndexError, AttributeError):
+                            pass
+                for nm in _assigned_names([s]):
+                    env.pop(nm, None)
+        walk(body)
+        if state['done'] == 'raise':
+            continue            # the name is refused: no entry (the theorem about the table will not hold)
+        if len(found) != 1 or not (isinstance(state['done'], tuple) and state['done'][0] == 'return'):
+            bail(fn, fd, 'psd_model=%r: expected exactly one low-level PSD call followed by a return, found %d' % (m, len(found)))
+        ret = state['done'][1].value
+        names = found[0][2]
+        if not isinstance(ret, ast.Dict):
+            bail(fn, state['done'][1], 'psd_microporous does not return a dictionary literal')
+        rd = {k.value: ast.unparse(v) for k, v in zip(ret.keys, ret.values) if isinstance(k, ast.Constant)}
+        for key, nm in zip(('pore_widths', 'pore_distribution', 'pore_volume_cumulative'), names):
+            if rd.get(key) != nm:
+                bail(fn, state['done'][1], 'result key %r is not the %s output of the low-level function' % (key, key))
+        table.append((m, SOLVER_FAMILY[found[0][0]], found[0][1]))
+    cs = lambda xs: '[' + '; '.join('"%s"' % x for x in xs) + ']'
+    out = ['(* psd_microporous: accepted model names / geometries and, for every accepted name, the low-level function it is\n'
+           '   dispatched to (FamHK = psd_horvath_kawazoe, FamRY = psd_horvath_kawazoe_ry) and the use_cy flag it passes *)',
+           'Inductive hk_family : Set := FamHK | FamRY.',
+           'Definition micro_psd_models : list string := %s.' % cs(lists['_MICRO_PSD_MODELS']),
+           'Definition pore_geometries : list string := %s.' % cs(lists['_PORE_GEOMETRIES']),
+           'Definition psd_microporous_dispatch : list (string * (hk_family * bool)) := [%s].\n'
+           % '; '.join('("%s", (%s, %s))' % (m, f, 'true' if cy else 'false') for m, f, cy in table)]
+    return '\n'.join(out)
+
+
 def scalar_function(tr, tree, fn, pyname, coqname, ptypes):
     fd = find_fun(tree, pyname, fn)
     params = [a.arg for a in fd.args.args]
@@ -608,6 +812,7 @@ def translate(src):
     hk_function(tr, tree, fn, 'psd_horvath_kawazoe', 'hk', T)
     hk_function(tr, tree, fn, 'psd_horvath_kawazoe_ry', 'ry', T)
     solver_shape(tree, fn)
+    dispatch = dispatch_table(tree, fn)
 
     o = []
     o.append('(* GENERATED by tools/py2v_hk.py from pygaps/characterisation/psd_micro.py and models_hk.py\n'
@@ -618,6 +823,7 @@ def translate(src):
         o.append('(* scipy.constants.%s = %r *)\nDefinition const_%s : Q := %s.\n' % (k, tr.consts[k], k, q(tr.consts[k])))
     o.append('Definition hk_keys : list string := [%s].' % '; '.join('"%s"' % k for k in mat_keys))
     o.append('Definition hk_adsorbate_keys : list string := [%s].\n' % '; '.join('"%s"' % k for k in T['ads_keys']))
+    o.append(dispatch)
     o.append('Section HkGen.\nVariable N : Num.\n')
     o.append('Record hkmat := mk_hkmat { %s }.' % '; '.join('m_%s : N' % k for k in mat_keys))
     o.append('Record hkads := mk_hkads { %s }.\n' % '; '.join('a_%s : N' % k for k in T['ads_keys']))
